@@ -18,6 +18,13 @@ def gen_consts(steps, **over):
     return consts(**c)
 
 
+def afterplay_consts():
+    """record, replay, record again (return / exception / interrupt) on one recorder: the metadata of the later recording
+    describes the later run, whatever the replay left behind"""
+    return gen_consts(1, MaxRuns=3, MaxRecs=2, Modes=['same'], Classes=[K('K1')], Extractors=['none', 'ok'],
+                      InCalls=[('ia1', 1)])
+
+
 def run(rep, tier, seed):
     rep.rule = ('behaviours = complete paths of the TLC state graph of Recorder.tla: programs x termination mode '
                 '(return / ordinary exception / interrupt-style, at the operation level or inside an intercepted input '
@@ -37,6 +44,7 @@ def run(rep, tier, seed):
                       expect='MetaTruth')
             ex = chk.generate('gen1', gen_consts(1), cassettes=('memory', 'file', 's3'), n_conc=1, sample=2500, cap=4000)
             chk.generate('gen2', gen_consts(2, MaxRuns=1, MaxRecs=1), cassettes=('memory',), n_conc=1, sample=2500, cap=4000)
+            chk.generate('afterplay', afterplay_consts(), cassettes=('memory',), n_conc=1, sample=1500, cap=3000)
         else:
             chk.check('chk', gen_consts(3), invariants=INVS, timeout=3000)
             ex = chk.generate('gen1', gen_consts(1), cassettes=('memory', 'file', 's3'), n_conc=2, all_paths=True, cap=200000)
@@ -44,6 +52,7 @@ def run(rep, tier, seed):
                          all_paths=True, cap=200000)
             chk.generate('gen3', gen_consts(3, MaxRuns=1, MaxRecs=1, Extractors=['ok', 'junk']), cassettes=('memory',),
                          n_conc=1, sample=50000, cap=80000, max_states=800000)
+            chk.generate('afterplay', afterplay_consts(), cassettes=('memory', 'file'), n_conc=1, all_paths=True, cap=100000)
         rep.exhaustive = bool(ex)
     finally:
         chk.close()
